@@ -282,11 +282,48 @@ def _python_side(ctx):
         # the tail of the function (ancestor rows, attributes) is bookkeeping; if it leaves the subset the guard itself is still decided on a prefix
         raise
 
+    def _walk_sql(e):
+        """all sub-expressions of a parsed SQL expression (dataclass fields)"""
+        import dataclasses
+        out, stack = [], [e]
+        while stack:
+            x = stack.pop()
+            out.append(x)
+            if dataclasses.is_dataclass(x):
+                for f in dataclasses.fields(x):
+                    v = getattr(x, f.name)
+                    if isinstance(v, (list, tuple)):
+                        stack.extend(y for y in v if dataclasses.is_dataclass(y))
+                    elif dataclasses.is_dataclass(v):
+                        stack.append(v)
+        return out
+
     def fetch2(eng, st, args, kw, node):
         sql = ' '.join((node.args[0].value if isinstance(node.args[0], pyast.Constant) else '').split())
         ok = 'FROM job_groups' in sql and 'job_groups.batch_id = %s AND job_groups.job_group_id = %s' in sql
         ps = args[1]
         eng.oblige(st, 'existence-check-names-this-group', z3.And(z3.BoolVal(ok and isinstance(ps, tuple) and len(ps) >= 2), eng.equal(ps[0], st.env['batch_id']), eng.equal(ps[1], st.env['job_group_id'])) if ok and isinstance(ps, tuple) and len(ps) >= 2 else z3.BoolVal(False))
+        # a group created by an update that is not committed yet cannot be cancelled (the procedure moves only the counters of
+        # committed updates; cancelling earlier would leave staged Ready jobs counted after the commit): the existence check
+        # admits the group only if its own update is committed, or it is the root group (created with the batch)
+        committed_gate = False
+        try:
+            stn = sqlparse.parse_statements(node.args[0].value)[0]
+            cj = conj(stn.select.where, [])
+            flat = ' '.join(node.args[0].value.split())
+            joined = 'batch_updates ON job_groups.batch_id = batch_updates.batch_id AND job_groups.update_id = batch_updates.update_id' in flat
+            n_params_before = 0
+            for c in cj:
+                if isinstance(c, A.BinOp) and c.op == 'OR':
+                    l, r = c.left, c.right
+                    names = {'.'.join(x.parts) for x in (l, r) if isinstance(x, A.Name)}
+                    eqs = [x for x in (l, r) if isinstance(x, A.BinOp) and x.op == '=' and isinstance(x.left, A.Name) and '.'.join(x.left.parts) == 'job_groups.job_group_id' and isinstance(x.right, A.Param)]
+                    if names == {'batch_updates.committed'} and len(eqs) == 1 and isinstance(ps, tuple) and len(ps) == n_params_before + 1 and ps[n_params_before] == 0:
+                        committed_gate = joined
+                n_params_before += sum(1 for x in _walk_sql(c) if isinstance(x, A.Param))
+        except Exception:  # pylint: disable=broad-except
+            committed_gate = False
+        eng.ctx.add(core.decided('C07/cancel_job_group_in_db.cancel/only-the-root-group-or-a-group-of-a-committed-update-is-accepted', committed_gate, ' '.join(node.args[0].value.split())[:300], kind='scan'))
         row = z3.Const('the_group_row', pyvc.U)
 
         def found(s):
